@@ -177,6 +177,16 @@ CHECKS = {
         "The interleaving of Pool workers is sampled, not controlled; unit names are unique.",
         "DESIGN.md §3 C15",
     ),
+    "C12": (
+        "exploration",
+        "Hypothesis grammar-based program generation; reference-scoping oracle (the same model as C05) for completion at drawn prefixes of every occurrence, per context",
+        "At every occurrence in a completion-relevant role (operand, CALL target, TYPE( reference, USE module, ONLY entry, % member, call obj% member) "
+        "and for drawn proper prefixes the set of offered user-declared names must equal the names the reference scoping says are accessible there "
+        "and start with the prefix, filtered by context; misses and extras are classified (alias-related merge, leak through a default-PRIVATE module, "
+        "re-exported alias, role/kind).",
+        "Only user-declared names are compared; some kinds are tolerated per context (types/subroutines in operand position, derived-type objects and functions after CALL, shadowed host objects).",
+        "DESIGN.md §3 C12",
+    ),
 }
 
 NOT_YET = "check not built yet in this session (work in progress; see DESIGN.md §3 for the planned generator and oracle)"
